@@ -9,7 +9,11 @@
             there are unresolved names; unknown names error
   REJECT    duplicate definitions (insert result inspected), missing required attributes (5 complex + 2 decimal),
             missing names, and unconditional record cycles (every Ok of from_str passes check_for_cycles)
-  PRESERVE  record fields, symbols, size and logical type are taken from the raw node in order (no reordering calls)
+  PRESERVE  record fields, symbols, size and logical type are taken from the raw node in order (no reordering calls);
+            every logical-type name maps to its own variant (table shared with C09) and unknown names are kept verbatim
+  CYCLECHECK / STATE  the zero-size-cycle search is a two-table DFS over *all* records and *all* their fields (no
+            positional selection); the parser state has the three reviewed tables; the key of an unresolved
+            reference is unresolved_names.len() | marker bit, pushed at one site
 It does NOT decide the resolved graph for every JSON spelling.
 """
 from ..lib import *
